@@ -98,6 +98,10 @@ impl Board {
     }
 
     fn parse_board(board: &mut Board, s: &str) -> Result<(), ()> {
+        // All eight ranks must be present
+        if s.split('/').count() != Rank::NUM {
+            return Err(());
+        }
         for (rank, row) in s.rsplit('/').enumerate() {
             let rank = Rank::try_index(rank).ok_or(())?;
             let mut file = 0;
